@@ -112,6 +112,20 @@ def runHierOps (c : Json) : Option Json := do
     | none => Json.null
   pure (Json.mkObj [("size", Json.num (JsonNumber.fromNat m.length)), ("res", Json.arr res.toArray)])
 
+/-- stream `injtime`: Date → DateTime and DateTime → Date on (day, second, nanosecond) triples -/
+def runInjTime (c : Json) : Option Json := do
+  let days ← (c.getObjVal? "days").toOption >>= (fun a => a.getArr?.toOption) >>= (fun a => a.toList.mapM jInt?)
+  let stampsJ ← (c.getObjVal? "stamps").toOption >>= fun a => a.getArr?.toOption
+  let stamps ← stampsJ.toList.mapM fun s => do
+    let d ← (s.getArrVal? 0).toOption >>= jInt?
+    let sec ← (s.getArrVal? 1).toOption >>= jInt?
+    let n ← (s.getArrVal? 2).toOption >>= jInt?
+    pure ({ day := d, sec := sec.toNat, nano := n.toNat } : Stamp)
+  let num (i : Int) : Json := Json.num (JsonNumber.fromInt i)
+  let d2dt := days.map fun d => let s := dateToStamp d; Json.arr #[num s.day, num s.sec, num s.nano]
+  let dt2d := stamps.map fun s => match stampToDate? s with | some d => num d | none => Json.str "refused"
+  pure (Json.mkObj [("d2dt", Json.arr d2dt.toArray), ("dt2d", Json.arr dt2d.toArray)])
+
 def labelOfStr? : String → Option Label
   | "priv" => some .priv | "sd" => some .sd | "pup" => some .pup | "dp" => some .dp | "pubd" => some .pubd | "pub" => some .pub
   | _ => none
@@ -819,6 +833,7 @@ def handle (line : String) : Json :=
       | "injlat" => runInjLat c
       | "dpevent" => runDpEvent c
       | "hierops" => runHierOps c
+      | "injtime" => runInjTime c
       | "dpquery" => runDpQuery ((j.getObjVal? "aux").toOption.getD Json.null)
       | "rules" => runRules ((j.getObjVal? "aux").toOption.getD Json.null)
       | _ => none
